@@ -114,7 +114,7 @@ func confirmHang(r *vcore.Run, t *topo, k *curveKit, b string, vals []*big.Int) 
 	if err := os.WriteFile(p, js, 0o644); err != nil {
 		return false, err.Error()
 	}
-	res := r.RunChild("TestC19HangChild", "hang", []string{"C19_HANG_CASE=" + p}, 75*time.Second)
+	res := r.RunChild("TestC19HangChild", "hang", []string{"C19_HANG_CASE=" + p}, 40*time.Second)
 	log, _ := os.ReadFile(res.LogPath)
 	s := string(log)
 	switch {
@@ -122,7 +122,7 @@ func confirmHang(r *vcore.Run, t *topo, k *curveKit, b string, vals []*big.Int) 
 		return false, "Solve returned in the child process"
 	case res.TimedOut && strings.Contains(s, "C19-CHILD: solving"):
 		inLoop := strings.Contains(s, "BinarySearchFunc") || strings.Contains(s, "GkrSolveHint")
-		return true, fmt.Sprintf("child Solve did not return within 75s; goroutine dump mentions the solving hint: %v", inLoop)
+		return true, fmt.Sprintf("child Solve did not return within 40s; goroutine dump mentions the solving hint: %v", inLoop)
 	default:
 		return false, "child did not reach Solve: " + short(fmt.Errorf("%s", res.Output))
 	}
